@@ -22,11 +22,15 @@
         -> stripComments_is_reference (+ stripComments_keeps_every_line_break,
                                          stripComments_identity_without_slash)
 
+   Beyond the property text (the tokenizer layer: escapes, \u, surrogate pairs -> UTF-8):
+        -> string_token_is_rfc8259, parse_string_literal_rfc8259, unicode_append_is_rfc3629,
+           parse_value_fuel_from_any_state
+
    Modelled as reference functions (libc): printf("%d"/"%lld") = print_dec, atoll = ref_atoll,
    sscanf("%x") on four hex digits = positional value, strpbrk = find_one_of.  Doubles are outside the
    property (kept as opaque text).  *)
 From Coq Require Import ZArith List Bool.
-From Json Require Import JsonSpec JsonModel JsonProofsBase JsonProofsTotal JsonProofsStrip JsonProofsRound.
+From Json Require Import JsonSpec JsonModel JsonProofsBase JsonProofsTotal JsonProofsStrip JsonProofsRound JsonProofsRfc.
 Import ListNotations.
 Local Open Scope Z_scope.
 
@@ -88,6 +92,29 @@ Theorem parse_toString_identical_when_canonical :
 Proof. exact canon_canonical. Qed.
 Print Assumptions parse_toString_identical_when_canonical.
 
+(* ---- the string tokenizer against RFC 8259 / RFC 3629 (JsonSpec.ref_string, JsonSpec.utf8) ---- *)
+Theorem string_token_is_rfc8259 :
+  forall s v f l rest acc, ref_string s = Some v -> (length s < f)%nat ->
+    str_loop f l (s ++ 34 :: rest) acc = Ok (l, rest, rev acc ++ v).
+Proof. exact str_loop_rfc_any. Qed.
+Print Assumptions string_token_is_rfc8259.
+
+Theorem parse_string_literal_rfc8259 :
+  forall s v, ref_string s = Some v -> parse (34 :: s ++ [34]) = POk (JString v).
+Proof. exact parse_string_rfc. Qed.
+Print Assumptions parse_string_literal_rfc8259.
+
+Theorem unicode_append_is_rfc3629 :
+  forall ch acc, 0 <= ch < 1114112 -> utf8_rev ch acc = rev (utf8 ch) ++ acc.
+Proof. exact utf8_all. Qed.
+Print Assumptions unicode_append_is_rfc3629.
+
+Theorem parse_value_fuel_from_any_state :
+  forall f p t, (2 * (length (p_rest p) + 1) + 1 <= f)%nat ->
+    parse_value f p t <> OutOfFuel /\ parse_value f p t <> OutOfBounds.
+Proof. exact parse_value_fuel. Qed.
+Print Assumptions parse_value_fuel_from_any_state.
+
 (* ---- stripComments ---- *)
 Theorem stripComments_is_reference : forall s : list Z, strip_comments s = reference_strip s.
 Proof. exact strip_comments_is_reference. Qed.
@@ -114,6 +141,11 @@ Proof. vm_compute. reflexivity. Qed.
 (* a surrogate pair 😀 becomes the four UTF-8 bytes of U+1F600 *)
 Example ex_parse_surrogates :
   parse [34;92;117;100;56;51;100;92;117;100;101;48;48;34] = POk (JString [240; 159; 152; 128]).
+Proof. vm_compute. reflexivity. Qed.
+
+(* the reference value of the literal with the escaped surrogate pair D83D DE00 and a simple escape *)
+Example ex_ref_string :
+  ref_string [92;117;100;56;51;100;92;117;100;101;48;48;92;110;195;169] = Some [240; 159; 152; 128; 10; 195; 169].
 Proof. vm_compute. reflexivity. Qed.
 
 (* [1 2]  : error after the second token, line 1 column 5; the position is inside the text *)
